@@ -2799,15 +2799,18 @@ Section Cover.
     split; [exact C1|]. now rewrite B, A.
   Qed.
 
-  Theorem step_rename_dir_in_over w k r p q w' ep v : RSync w k r -> npath p -> npath q ->
+  (* the events: the IN_MOVED_TO of the directory under its real path, then records about the replaced directory, all under q *)
+  Theorem step_rename_dir_in_over_ev w k r p q w' ep v : RSync w k r -> npath p -> npath q ->
     c_recursive C = true -> c_fix_movein C = true ->
     N.land IN_MOVED_FROM (c_mask C) <> 0%N -> N.land IN_MOVED_TO (c_mask C) <> 0%N ->
     apply_op w (Rename p q) = Some w' ->
     flookup p (w_fs w) = Some ep -> f_dir ep = true -> ~ scope p -> under p root = false -> scope q -> q <> root ->
     flookup q (w_fs w) = Some v -> f_dir v = true ->
     let k1 := kernel_op k (w_fs w) (Rename p q) in
-    exists r' k' evs, read_batch C (w_fs w') (r, drainq k1, []) (k_queue k1) = Done (r', k', evs) /\ RSync w' k' r' /\
-      Forall rsafe evs.
+    exists r' k' wd rest, read_batch C (w_fs w') (r, drainq k1, []) (k_queue k1) =
+        Done (r', k', {| r_wd := wd; r_mask := N.lor IN_MOVED_TO IN_ISDIR; r_cookie := k_next_cookie k;
+                         r_name := basename q; r_path := q |} :: rest) /\ RSync w' k' r' /\
+      Forall (fun e => (self_mask (r_mask e) \/ r_mask e = IN_IGNORED) /\ r_path e = q) rest.
   Proof.
     intros S Np Nq Hrec Hfix Hmf Hmt Ha Elp Dep Sp Hpr Sq Hqr Elq Dv k1. destruct S as [W Hr I Cv Hq Hpd].
     assert (W' : wf_fs w') by exact (wf_apply_op w (Rename p q) w' W (conj Np Nq) Ha).
@@ -2921,12 +2924,16 @@ Section Cover.
     rewrite (read_one_ignored_other _ _ _ _ _ q (kw_wd kwn) HpA HwA Hnn).
     change {| wfp := wfp rA; pfw := aremove N.eqb (kw_wd kwv) (pfw rA); mvf := mvf rA; calls := calls rA; pend := pend rA |}
       with (hat (kw_wd kwv) rA).
-    eexists _, _, _. split; [reflexivity|]. split.
-    2:{ apply Forall_app. split; [apply Forall_app; split|].
-        - constructor; [|constructor]. apply good_rsafe. split; reflexivity.
-        - apply (inert_raws_path rA pre evs1 (kw_wd kwv) q HF1); try assumption.
-          eapply Forall_impl; [|exact Hpre]. intros a (A1 & A2 & _). now split.
-        - constructor; [|constructor]. intros _. cbn [r_path]. now apply beqb_neq. }
+    exists (hat (kw_wd kwv) rA), kD, (kw_wd kwq),
+           (evs1 ++ [{| r_wd := kw_wd kwv; r_mask := IN_IGNORED; r_cookie := 0; r_name := []; r_path := q |}]).
+    split.
+    { cbn [app]. unfold raw_to, mv_to, kev. cbn [k_wd k_mask k_cookie k_name]. do 3 f_equal. f_equal.
+      unfold src_path_of in SPq. destruct (basename q); [discriminate Vbq | exact SPq]. }
+    split.
+    2:{ apply Forall_app. split; [|constructor; [split; [now right | reflexivity] | constructor]].
+        clear -HF1 Hpre HpA. revert HF1. generalize evs1. induction Hpre as [|a pre0 (A1 & A2 & A3) _ IHp]; intros evs0 HF; inversion HF as [|? ev ? evs' (wp & Hwp & ->) HF']; subst; constructor.
+        - unfold raw_ev, src_path_of. cbn [r_mask r_path]. rewrite A2. split; [now left|]. rewrite A1 in Hwp. congruence.
+        - now apply IHp. }
     assert (Hroot : ren p q er = er).
     { apply Hren; [exact Her|]. rewrite Eer. unfold scope. rewrite Hrec. now left. }
     assert (CvD : Cover t' kD rD).
@@ -2952,6 +2959,23 @@ Section Cover.
     - exact (Cover_leq _ _ _ _ CvD HA2).
     - now rewrite QD.
     - exact HpdA.
+  Qed.
+
+  Theorem step_rename_dir_in_over w k r p q w' ep v : RSync w k r -> npath p -> npath q ->
+    c_recursive C = true -> c_fix_movein C = true ->
+    N.land IN_MOVED_FROM (c_mask C) <> 0%N -> N.land IN_MOVED_TO (c_mask C) <> 0%N ->
+    apply_op w (Rename p q) = Some w' ->
+    flookup p (w_fs w) = Some ep -> f_dir ep = true -> ~ scope p -> under p root = false -> scope q -> q <> root ->
+    flookup q (w_fs w) = Some v -> f_dir v = true ->
+    let k1 := kernel_op k (w_fs w) (Rename p q) in
+    exists r' k' evs, read_batch C (w_fs w') (r, drainq k1, []) (k_queue k1) = Done (r', k', evs) /\ RSync w' k' r' /\
+      Forall rsafe evs.
+  Proof.
+    intros S Np Nq Hrec Hfix Hmf Hmt Ha Elp Dep Sp Hpr Sq Hqr Elq Dv k1.
+    destruct (step_rename_dir_in_over_ev w k r p q w' ep v S Np Nq Hrec Hfix Hmf Hmt Ha Elp Dep Sp Hpr Sq Hqr Elq Dv)
+      as (r' & k' & wd & rest & H1 & H2 & H3).
+    eexists _, _, _. split; [exact H1|]. split; [exact H2|]. constructor; [apply good_rsafe; split; reflexivity|].
+    eapply Forall_impl; [|exact H3]. intros e [_ Ep] _. rewrite Ep. now apply beqb_neq.
   Qed.
 
   (* ------------------------------------------------------------------ 2b: directory renames that do not concern the watch state:
